@@ -64,10 +64,10 @@ prop('C16', units=['bk', 'ord', 'drv'], level='proof',
      not_covered=['parse_initial_status string splitting / rejection before processing (cmd.rs)', 'call site in the async I/O driver (witness D11)'],
      witnesses=['D11'])
 
-prop('C17', units=['costs', 'rnd'], level='proof',
-     technique='Verus contracts on costs.rs: MaxSingleDayCosts sum invariant; calc_max_day_cost_per_sec row k = day maximum or carried closing value for every security; calc_yearly_max_cost_day = best row of the year (earliest on ties)',
-     level_text='Deductive proof (Verus) for all delta lists satisfying deltas_ok (per security in settlement order): every dated row, the carry-forward, the row total and the yearly best day are those of the statement, for any hash iteration order.',
-     level_note=BK_NOTE + ' the call site in run_acb_app_to_render_model is verified up to one named assumption (axiom_concat_ledgers_deltas_ok: the concatenation of per-security ledgers, securities in sorted order, satisfies deltas_ok). hole_date_keys (keys().map().collect()) is an assumed std paraphrase with arbitrary order.',
+prop('C17', units=['costs', 'rnd', 'bk', 'ord'], level='proof',
+     technique='Verus contracts on costs.rs: MaxSingleDayCosts sum invariant; calc_max_day_cost_per_sec row k = day maximum or carried closing value for every security; calc_yearly_max_cost_day = best row of the year (earliest on ties); the admissibility of its input (deltas_ok) is proved at the call site from the contracts of txs_to_delta_list, replace_global_security_splits_for_holders and run_acb_app_to_delta_models',
+     level_text='Deductive proof (Verus) for all delta lists satisfying deltas_ok (per security in settlement order): every dated row, the carry-forward, the row total and the yearly best day are those of the statement, for any hash iteration order; and deltas_ok itself is proved for the list run_acb_app_to_render_model builds (lemma_concat_ledgers_deltas_ok over the per-ledger facts: own security, cost base on both sides or none, settlement order kept through split expansion and generated adjustments).',
+     level_note=BK_NOTE + ' hole_date_keys (keys().map().collect()), hole_map_into_vec, hole_map_entries, hole_clone_deltas are assumed std paraphrases with arbitrary order. The opening-position and rate-loader preconditions of run_acb_app_to_render_model are those of the command-line layer (not verified).',
      not_covered=['render_total_costs string assembly', 'Costs::sorted_years (rendering helper)', 'listing of ignored transactions as notes (strings)'],
      witnesses=['D1', 'D2b'])
 
@@ -151,9 +151,9 @@ prop('C20', units=['pdf'], level='proof',
 
 
 prop('C19', units=['etr'], level='proof',
-     technique='Verus: amend_benefit_sales - multiset conservation of trade confirmations (leftover + consumed == all, consumed are sales), exchange argument for the position search, descending removal; benefits passed through with dates of a sale within [benefit date, +5 days]',
+     technique='Verus: amend_benefit_sales - multiset conservation of trade confirmations (leftover + consumed == all, consumed are sales), exchange argument for the position search, descending removal; benefits passed through with dates of a sale within [benefit date, +5 days]; txs_from_data - one purchase row per benefit at FMV, one sale row per sell-to-cover, one row per leftover confirmation, each exactly once, sorted',
      level_text='Deductive proof (Verus) of the matching/accounting core of the E*TRADE extraction for all benefit and confirmation lists: every confirmation ends up exactly once (leftover or consumed by a sell-to-cover), only sales in the five-day window are consumed, benefits are otherwise unchanged. The PDF text parsers, the subset search and the rendering of purchases/sales into rows are not verified.',
      level_note='find_sell_to_cover_trade_set (itertools search) is assumed to return distinct candidate positions, at least one; hole_position paraphrases iter().enumerate().position(..); BrokerTx / BenefitEntry equality is structural (derived); model E.',
-     not_covered=['regex parsers of benefit / trade confirmation PDFs', 'find_sell_to_cover_trade_set (share counts adding up to the sold shares)', 'txs_from_data: one purchase per benefit at FMV, sell-to-cover sale rows, manual trades'],
+     not_covered=['regex parsers of benefit / trade confirmation PDFs', 'find_sell_to_cover_trade_set (same security, share counts adding up to the sold shares)', 'memo text of the rows'],
      witnesses=['D8'])
 ALL_UNITS.append('etr')
